@@ -899,6 +899,18 @@ def _longtime(prog: Program, res: Result):
     if RB_D is None:
         raise AnalysisError(f"{q}: the per-height dictionaries handed to GFunction (r_b_values, g_lts) were not found")
     ok = isinstance(f.env.get(f"{RB_D}[{lv}]"), Rat) and f.env[f"{RB_D}[{lv}]"].equals(Rat.atom("r_b")) and f"{G_D}[{lv}]" in f.env
+    if not ok and f"{G_D}[{lv}]" in f.env:
+        # the radius table built in one go from the keys of the curve table:  dict.fromkeys(G, r_b)  /  {h: r_b for h in G}
+        for s_ in ast.walk(fi.node):
+            if isinstance(s_, ast.Assign) and len(s_.targets) == 1 and isinstance(s_.targets[0], ast.Name) and s_.targets[0].id == RB_D:
+                v_ = s_.value
+                if isinstance(v_, ast.Call) and attr_chain(v_.func) == "dict.fromkeys" and len(v_.args) == 2 and isinstance(v_.args[0], ast.Name) and v_.args[0].id == G_D \
+                        and isinstance(v_.args[1], ast.Name) and v_.args[1].id == "r_b":
+                    ok = True
+                if isinstance(v_, ast.DictComp) and len(v_.generators) == 1 and not v_.generators[0].ifs and isinstance(v_.generators[0].iter, ast.Name) and v_.generators[0].iter.id == G_D \
+                        and isinstance(v_.generators[0].target, ast.Name) and isinstance(v_.key, ast.Name) and v_.key.id == v_.generators[0].target.id and isinstance(v_.value, ast.Name) and v_.value.id == "r_b":
+                    ok = True
+        ok = ok and sum(1 for s_ in ast.walk(fi.node) if isinstance(s_, ast.Assign) and any(isinstance(t_, ast.Name) and t_.id == RB_D for t_ in s_.targets)) == 1
     res.ob("R11.4", "one curve and the borehole radius are stored under each height", ok, prog.loc(fi, fi.node))
     if not ok:
         res.violation("R11.4", "per-height-storage", prog.loc(fi, fi.node), q, "the long-time curve / radius are not stored under the height they were computed for")
